@@ -1,12 +1,15 @@
 (* C15 — constraint text round-trips; range operators and bumps are monotone.
    Proved here: the bump and range-operator half, from the TEXT of the clause for every version literal in normal form
-   (C15_operator_text), and the text round trip of every single clause (C04_clause_text; C03_text_roundtrip for the
-   version inside it).  The text round trip of comma sets, '||' unions, wildcards and exclusions is decided by the
-   correspondence run (str() of every model result equals the implementation's, byte for byte) and the oracle
-   (re-parse and compare on regular probes; reference specifier syntax), not by a theorem. *)
+   (C15_operator_text), and the text round trip - what str() prints parses back to the very same constraint - for single
+   versions, half-lines and bounded ranges (C15_printed_range_roundtrip), wildcard ranges (C15_wildcard_roundtrip), exclusions
+   '!=V' (C15_exclusion_roundtrip) and unions of those printed group by group (C15_union_roundtrip), for bounds in normal form.
+   Left to the correspondence run (str() of every model result equals the implementation's, byte for byte) and the oracle
+   (re-parse and compare on regular probes; reference specifier syntax): negated wildcards '!=R.*', unions with wildcard
+   members, bounds whose text is not the normal form. *)
 From Coq Require Import List Bool NArith String.
 From PC Require Import Base.Cmp Base.Result Model.Pep440 Spec.Pep440Spec Spec.Specifier Model.VConstraint
-     Proofs.VersionFacts Proofs.RangeSpec Proofs.SpecifierAgree Proofs.Bumps Proofs.Compat Proofs.Pep440RoundTrip Proofs.ClauseText Proofs.AnyIff Proofs.ConstraintText.
+     Proofs.VersionFacts Proofs.RangeSpec Proofs.SpecifierAgree Proofs.Bumps Proofs.Compat Proofs.Pep440RoundTrip Proofs.ClauseText Proofs.AnyIff Proofs.ConstraintText
+     Proofs.WildcardText Proofs.WildcardMembership Proofs.ExclusionText Proofs.WildcardPrint Proofs.UnionOfNormal Proofs.UnionText.
 Import ListNotations.
 Open Scope string_scope.
 
@@ -107,3 +110,31 @@ Example C15_roundtrip_example :
     vltb a b = true /\ nondeg (RR (Some a) (Some b) false true) = true /\ is_single_wildcard_range (RR (Some a) (Some b) false true) = false /\
     r_str (RR (Some a) (Some b) false true) = ">1!2.0rc1,<=1!3.1.post2".
 Proof. do 2 eexists. repeat split; vm_compute; reflexivity. Qed.
+
+(* the text round trip of the remaining printed forms *)
+(* an exclusion: printed as '!=V' (excludes_single_version finds V), read back as the same two half-lines *)
+Theorem C15_exclusion_roundtrip : forall m v, normal v = true ->
+  vc_str (excl v) = Ok ("!=" ++ text v) /\ parse_constraint_text m true ("!=" ++ text v) = Ok (excl v).
+Proof. exact exclusion_text_roundtrip. Qed.
+Print Assumptions C15_exclusion_roundtrip.
+(* a wildcard range: printed as '==R.*', read back as the same range *)
+Theorem C15_wildcard_roundtrip : forall m R, (1 <= List.length R <= 3)%nat ->
+  r_str (wild_range R) = "==" ++ rel_text R ++ ".*" /\
+  parse_single m ("==" ++ rel_text R ++ ".*") = match make_x_constraint_range (bare R) false m with Ok c => Ok c | Err _ => Err EValue end /\
+  make_x_constraint_range (bare R) false false = Ok (VOne (wild_range R)).
+Proof. exact wildcard_text_roundtrip. Qed.
+Print Assumptions C15_wildcard_roundtrip.
+(* a union of versions, half-lines and bounded ranges that is printed group by group: read back as the same union, provided its members
+   are in order and pairwise apart ([apart_all]: no overlap, no adjacency - decidable; VersionUnion.of returns such a list unchanged) *)
+Theorem C15_union_roundtrip : forall m l, (2 <= List.length l)%nat -> apart_all l = true -> Forall range_shape l ->
+  vc_str (VUnion l) = Ok (sjoin " || " (map r_str l)) ->
+  exists s, vc_str (VUnion l) = Ok s /\ parse_constraint_text m true s = Ok (VUnion l).
+Proof. exact printed_union_roundtrip. Qed.
+Print Assumptions C15_union_roundtrip.
+Example C15_union_roundtrip_example :
+  exists a b c, parse "1.0" = Some a /\ parse "2.0rc1" = Some b /\ parse "3.1" = Some c /\
+    let l := [RR (Some a) (Some b) true false; RV c] in
+    apart_all l = true /\ vc_str (VUnion l) = Ok ">=1.0,<2.0rc1 || 3.1" /\ sjoin " || " (map r_str l) = ">=1.0,<2.0rc1 || 3.1" /\
+    normal a = true /\ normal b = true /\ normal c = true /\ vltb a b = true /\ nondeg (RR (Some a) (Some b) true false) = true /\
+    is_single_wildcard_range (RR (Some a) (Some b) true false) = false.
+Proof. do 3 eexists. repeat split; vm_compute; reflexivity. Qed.
